@@ -40,7 +40,15 @@ func (te *tableEngine) tableGameOpen() error {
 			reopened := false
 
 			for i := 0; i < retry; i++ {
+				// 等待期間釋放鎖，盲注更新與補碼才進得來 (否則重試永遠等不到變化)
+				te.lock.Unlock()
 				time.Sleep(time.Second * 3)
+				te.lock.Lock()
+
+				// 等待期間桌次已關閉或已釋放，不開局
+				if te.isReleased || te.table.State.Status == TableStateStatus_TableClosed {
+					return nil
+				}
 
 				// 已經開始新的一手遊戲，不做任何事
 				gameStartingStatuses := []TableStateStatus{
